@@ -88,6 +88,33 @@ theorem C16_decorators_independent (lk : Leak) (c : Case) (w : World) (i k : Nat
   · simp [h]
   · rfl
 
+/-- functions that run when a finished class is USED and may therefore consult the global configuration -/
+def runtimeConfigReaders : List String := ["validate"]
+
+/-- **C16_definitions_never_read_config**: in the current source no function that runs while a class is being
+    DEFINED (`_ClassBuilder.*`, `_transform_attrs`, `attrs`/`wrap`, `define`/`wrap`/`do_it`, `make_class`, `attrib`, ...)
+    reads an attribute of `_config` (T1: every reader is a known run-time function), which is what entitles the
+    model to make the validator switch invisible to definition steps. -/
+theorem C16_definitions_never_read_config :
+    Generated.configReaders.all (fun n => runtimeConfigReaders.contains n) = true := by decide
+
+/-- **C16_environment_erasable**: changes of the process environment (the global validator switch) anywhere in a
+    history can be erased together with the definitions: the target is defined exactly as with the switch in its
+    default state, and the environment operations themselves leave the world of arguments alone. -/
+theorem C16_environment_erasable (c : Case) (w : World) (steps : List Step) (t : Step)
+    (h : ∀ s ∈ steps, s.isDef = true ∨ s.isEnv = true) :
+    (run currentLeak c w steps).1 = w ∧ (step currentLeak c (run currentLeak c w steps).1 t).2 = (step currentLeak c w t).2 := by
+  have hu : userOps steps = [] := by
+    simp only [userOps, List.filter_eq_nil_iff]
+    intro s hs
+    rcases h s hs with h1 | h1 <;> simp [h1]
+  have hw : (run currentLeak c w steps).1 = w := by rw [C16_arguments_unchanged, hu]; rfl
+  exact ⟨hw, by rw [hw]⟩
+
+/-- non-vacuity: switch off, define, switch on, define -/
+example : ∀ s ∈ [Step.validatorsOff, Step.defDeco 0 default, Step.validatorsOn, Step.defDeco 0 default],
+    s.isDef = true ∨ s.isEnv = true := by decide
+
 /-- **C16_make_class_pure**: `make_class` returns the caller's containers unchanged and its result depends on the
     world only through the contents of the dict it was given. -/
 theorem C16_make_class_pure (c : Case) (w w' : World) (m : MkArgs) :
@@ -283,7 +310,7 @@ theorem C16_model_meets_spec (c : Case) (hwf : wf c = true) : spec c (model c) =
   simp only [spec, model, modelWith, currentLeak_eq_noLeak, hd _ _ ht, herase, beq_self_eq_true, Bool.and_true,
     Bool.true_and, Bool.and_eq_true, beq_iff_eq]
   rw [← herase]
-  refine ⟨⟨⟨⟨⟨hcells, hmk⟩, ?_⟩, ?_⟩, ?_⟩, ?_⟩
+  refine ⟨⟨⟨⟨⟨⟨envRun_expected c.steps, hcells⟩, hmk⟩, ?_⟩, ?_⟩, ?_⟩, ?_⟩
   · rw [hcells]; rfl
   · rw [hmk]; rfl
   · rw [hcas]; rfl
